@@ -277,6 +277,7 @@ func (r *readIdleHandler) onReadTimeout() {
 	var expired bool
 	var ctx HandlerContext
 
+	verifYieldObj("ri.decide", r)
 	r.withReadLock(func() {
 		// check if the idle time expires.
 		expired = time.Since(r.lastReadTime) >= r.idleTime
@@ -294,16 +295,19 @@ func (r *readIdleHandler) onReadTimeout() {
 			}()
 
 			// trigger ReadIdleEvent.
+			verifYieldObj("ri.trigger", r)
 			ctx.Trigger(ReadIdleEvent{})
 		}()
 	}
 
 	// reset timer
+	verifYieldObj("ri.rearm", r)
 	r.withReadLock(func() {
 		if r.readTimer != nil {
 			r.readTimer.Reset(r.idleTime)
 		}
 	})
+	verifYieldObj("ri.done", r)
 }
 
 // writeIdleHandler
@@ -376,6 +380,7 @@ func (w *writeIdleHandler) onWriteTimeout() {
 	var expired bool
 	var ctx HandlerContext
 
+	verifYieldObj("wi.decide", w)
 	w.withReadLock(func() {
 		// check if the idle time expires.
 		expired = time.Since(w.lastWriteTime) >= w.idleTime
@@ -394,15 +399,17 @@ func (w *writeIdleHandler) onWriteTimeout() {
 			}()
 
 			// trigger WriteIdleEvent.
+			verifYieldObj("wi.trigger", w)
 			ctx.Trigger(WriteIdleEvent{})
 		}()
 	}
 
 	// reset timer.
+	verifYieldObj("wi.rearm", w)
 	w.withReadLock(func() {
 		if w.writeTimer != nil {
 			w.writeTimer.Reset(w.idleTime)
 		}
 	})
-
+	verifYieldObj("wi.done", w)
 }
